@@ -137,7 +137,12 @@ func runProperty(prop, tier, only string, seed, workers int, verbose, noReplay b
 	// group by load configuration
 	type loadKey struct{ goarch string }
 	groups := map[loadKey][]HarnessSpec{}
+	var t3specs []HarnessSpec
 	for _, s := range specs {
+		if s.Asm != "" {
+			t3specs = append(t3specs, s)
+			continue
+		}
 		k := loadKey{s.GOARCH}
 		groups[k] = append(groups[k], s)
 	}
@@ -215,6 +220,42 @@ func runProperty(prop, tier, only string, seed, workers int, verbose, noReplay b
 			for _, c := range s.Covers {
 				if !r.Covers[c] {
 					fmt.Printf("  VACUOUS %s: cover point %q not reached\n", s.Func, c)
+					broken++
+				}
+			}
+		}
+	}
+
+	if len(t3specs) > 0 {
+		if err := runT3Dump(verbose); err != nil {
+			fmt.Fprintln(os.Stderr, "BROKEN:", err)
+			return 2
+		}
+		for _, s := range t3specs {
+			body, err := t3Body(s)
+			if err != nil {
+				fmt.Fprintf(os.Stderr, "BROKEN: tier-3 harness %s: %v\n", s.Func, err)
+				broken++
+				continue
+			}
+			name := s.Func + ":" + s.Asm + ":" + s.T3
+			h := &gosym.HarnessRun{Name: name, Body: body, Eng: &gosym.Engine{}, Known: propKnown, Workers: workers, Verbose: verbose, SolverLog: solverLog}
+			h.MaxPerSite = 6
+			if tier == "thorough" {
+				h.TimeoutMs = 60000
+			}
+			r := h.Run()
+			results = append(results, r)
+			resSpecs = append(resSpecs, s)
+			fmt.Printf("harness %-40s paths=%d done=%d infeasible=%d ended=%d not-encoded=%d budget=%d queries=%d (sat %d unsat %d unknown %d) solver=%.1fs wall=%.1fs\n",
+				name, r.Paths, r.PathsDone, r.Infeasible, r.Ended, r.NotEncoded, r.Budget,
+				r.Stats.Queries, r.Stats.NSat, r.Stats.NUnsat, r.Stats.NUnknown, r.Stats.SolveTime.Seconds(), r.WallS)
+			for m, n := range r.Problems {
+				fmt.Printf("  INCONCLUSIVE %s: %s (x%d)\n", name, m, n)
+			}
+			for _, c := range s.Covers {
+				if !r.Covers[c] {
+					fmt.Printf("  VACUOUS %s: cover point %q not reached\n", name, c)
 					broken++
 				}
 			}
